@@ -452,6 +452,22 @@ func scenarioBrief(s *Scenario) string {
 // propsOfMismatch maps a divergence between the real execution and the contract to the
 // properties it violates.
 func propsOfMismatch(m Mismatch, ev map[string]any) []string {
+	ps := propsOfMismatch0(m, ev)
+	api, _ := ev["api"].(string)
+	if (api == "ssnap" || api == "sjson") && ev["ev"] == "match" {
+		// the k-th standalone call maps to file k, whose bytes are exactly the value: any divergence
+		// of a standalone call is also a divergence from C19
+		for _, p := range ps {
+			if p == "C19" {
+				return ps
+			}
+		}
+		ps = append(ps, "C19")
+	}
+	return ps
+}
+
+func propsOfMismatch0(m Mismatch, ev map[string]any) []string {
 	api, _ := ev["api"].(string)
 	ci := false
 	docProp := func() string {
